@@ -53,7 +53,7 @@ func C15(p *ir.Program, r *report.R) {
 	gasNeverSigned(c)
 	heapDiscipline(c)
 	r.Floor = 50
-	r.Explain = "Decided: (admission) transactions enter the three offer lists only through addGoodTx/addPureUtxoTx/addSpecGoodTx, and every call of those is dominated by a successful state check (CheckTx(tx, StateCheck) == nil) of the same transaction; AddTx dispatches only after the cache accepted the hash (dedup) and the basic check passed; only ErrNonceTooHigh routes to the future queue; (maintenance) Update runs filterTxs, recheckTxs, recheckSpecTxs/recheckUtxoTxs, promoteExecutables in that order; every iteration of a recheck loop either keeps a transaction whose state check passed or removes it from its list; CommitBlock refreshes the check state and key-image set before Update, all under the mempool lock; (lockset) every access to the plain guarded fields (futureTxs, futureTxsCount, beats, height, notifiedTxsAvailable under proxyMtx; kImageCache under kImageMtx) happens with the mutex held in the accessing function or in every caller chain, Update being caller-locked; (order) the nonce queue hands out a gap-free run starting at the requested nonce and Forward drops exactly the nonces below the threshold; (caps) Reap waits for rechecks and respects the maxima; (check-state hygiene) a state check that rejects a transaction must not have mutated the shared check state before the rejection. ADDED after seeded-change testing: Update re-checks the offered lists on every path (recheckTxs always; recheckSpecTxs/recheckUtxoTxs skipped only for an empty list), also after an empty block. Rounds 4-5: no gas quantity converted to a signed integer without a bound; a helper split out of a locked method is read as part of it. NOT decided: content invariants of the pool over interleavings, executability of the reaped set against the real application, balance coverage."
+	r.Explain = "Decided: (admission) transactions enter the three offer lists only through addGoodTx/addPureUtxoTx/addSpecGoodTx, and every call of those is dominated by a successful state check (CheckTx(tx, StateCheck) == nil) of the same transaction; AddTx dispatches only after the cache accepted the hash (dedup) and the basic check passed; only ErrNonceTooHigh routes to the future queue; (maintenance) Update runs filterTxs, recheckTxs, recheckSpecTxs/recheckUtxoTxs, promoteExecutables in that order; every iteration of a recheck loop either keeps a transaction whose state check passed or removes it from its list; CommitBlock refreshes the check state and key-image set before Update, all under the mempool lock; (lockset) every access to the plain guarded fields (futureTxs, futureTxsCount, beats, height, notifiedTxsAvailable under proxyMtx; kImageCache under kImageMtx) happens with the mutex held in the accessing function or in every caller chain, Update being caller-locked; (order) the nonce queue hands out a gap-free run starting at the requested nonce and Forward drops exactly the nonces below the threshold; (caps) Reap waits for rechecks and respects the maxima; (check-state hygiene) a state check that rejects a transaction must not have mutated the shared check state before the rejection. ADDED after seeded-change testing: Update re-checks the offered lists on every path (recheckTxs always; recheckSpecTxs/recheckUtxoTxs skipped only for an empty list), also after an empty block. Rounds 4-5: no gas quantity converted to a signed integer without a bound; a helper split out of a locked method is read as part of it. Round 6: elements enter and leave container/heap types only through container/heap. NOT decided: content invariants of the pool over interleavings, executability of the reaped set against the real application, balance coverage."
 	r.Trusted = []string{"clist.CList (internally locked list)", "container/heap"}
 
 	// ---- admission -------------------------------------------------------------------
